@@ -185,6 +185,9 @@ pub enum DocMode {
     None,
     Plain,
     Adversarial,
+    /// Markdown with links but without `"` and `\\` (which the Rust generator copies verbatim
+    /// into `#[aldrin(doc = "..")]` attributes).
+    Safe,
 }
 
 #[derive(Debug, Clone)]
@@ -199,6 +202,10 @@ pub struct Cfg {
     pub importable: Vec<Exports>,
     /// Index used to make service uuids unique across the schemas of one case.
     pub schema_index: u32,
+    /// C16/C20 mode (only meaningful with `noise == 0`): generics nested up to depth 4, names
+    /// from pools that include Rust keywords (usable as raw identifiers), attributes that do not
+    /// request extra derives, doc text without quotes/backslashes unless `docs` says otherwise.
+    pub rich: bool,
 }
 
 const TYPE_NAMES: &[&str] = &["Foo", "Bar", "Baz", "Qux", "Item", "Node", "Point", "Color", "Entry", "Kind"];
@@ -223,6 +230,18 @@ const ATTR_NAMES: &[&str] = &["rust", "derive", "doc", "x", "_a", "cfg"];
 const ATTR_OPTS: &[&str] = &["impl_copy", "impl_partial_eq", "impl_eq", "impl_partial_ord", "impl_ord", "impl_hash", "x", "_", "a1"];
 const IMPORT_NAMES: &[&str] = &["a", "b", "c", "other", "types"];
 const ODD_IMPORT_NAMES: &[&str] = &["nope", "main", "A", "self", "_", "b", "a", "\u{e4}", "struct", "zz9"];
+
+/// Rust keywords (strict, reserved and weak) that are valid schema identifiers and can be written
+/// as raw identifiers, plus - marked by `EXCLUDED_IDENTS` - the five names that cannot.
+const KW_NAMES: &[&str] = &[
+    "type", "match", "fn", "impl", "trait", "mod", "use", "async", "await", "dyn", "move", "ref", "static", "where", "while",
+    "loop", "yield", "try", "in", "as", "const", "continue", "break", "else", "enum", "extern", "false", "true", "for", "if",
+    "let", "mut", "pub", "return", "struct", "abstract", "become", "do", "final", "macro", "override", "priv", "typeof",
+    "unsized", "virtual", "union", "self", "Self", "super", "crate", "_",
+];
+
+/// Names rustc cannot express as raw identifiers: excluded by construction and counted.
+pub const EXCLUDED_IDENTS: &[&str] = &["self", "Self", "super", "crate", "_"];
 
 const PRIMS: &[&str] = &[
     "bool", "u8", "i8", "u16", "i16", "u32", "i32", "u64", "i64", "f32", "f64", "string", "uuid", "object_id", "service_id",
@@ -263,6 +282,8 @@ pub struct Gen<'a, 'b> {
     imported: Vec<usize>,
     uuid_counter: u32,
     pub exports: Exports,
+    /// How often one of `EXCLUDED_IDENTS` was drawn (and replaced).
+    pub excluded: u32,
 }
 
 impl<'a, 'b> Gen<'a, 'b> {
@@ -278,6 +299,7 @@ impl<'a, 'b> Gen<'a, 'b> {
             imported: vec![],
             uuid_counter: 0,
             exports: Exports::default(),
+            excluded: 0,
         }
     }
 
@@ -305,7 +327,23 @@ impl<'a, 'b> Gen<'a, 'b> {
         unreachable!()
     }
 
+    /// In rich mode: sometimes a Rust keyword; `None` (and a count) for the five inexpressible names.
+    fn keyword_name(&mut self) -> Option<String> {
+        if !self.cfg.rich || !self.t.chance(45) {
+            return None;
+        }
+        let n = *self.t.pick(KW_NAMES);
+        if EXCLUDED_IDENTS.contains(&n) {
+            self.excluded += 1;
+            return None;
+        }
+        Some(n.to_string())
+    }
+
     fn def_name(&mut self, pool: &[&str], odd: &[&str]) -> String {
+        if let Some(k) = self.keyword_name() {
+            return self.unique(&k);
+        }
         if self.slip() {
             let n = (*self.t.pick(odd)).to_string();
             self.used_names.push(n.clone());
@@ -346,6 +384,10 @@ impl<'a, 'b> Gen<'a, 'b> {
                 let n = self.comment_count();
                 (0..n).map(|_| text::doc_line(self.t)).collect()
             }
+            DocMode::Safe => {
+                let n = self.comment_count();
+                (0..n).map(|_| text::safe_doc_line(self.t)).collect()
+            }
             DocMode::Adversarial => {
                 if self.t.chance(150) {
                     text::adversarial_block(self.t)
@@ -359,7 +401,12 @@ impl<'a, 'b> Gen<'a, 'b> {
     fn attr(&mut self) -> Attr {
         let name = (*self.t.pick(ATTR_NAMES)).to_string();
         let n = self.t.below(7);
-        let opts: Vec<String> = (0..n).map(|_| (*self.t.pick(ATTR_OPTS)).to_string()).collect();
+        let mut opts: Vec<String> = (0..n).map(|_| (*self.t.pick(ATTR_OPTS)).to_string()).collect();
+        if self.cfg.rich && name == "rust" {
+            // `#[rust(impl_copy, ..)]` asks the generator for extra derives that the fields may not
+            // support: that is the schema author's business, not the property's
+            opts.retain(|o| !o.starts_with("impl_"));
+        }
         let trailing_comma = !opts.is_empty() && self.t.chance(60);
         Attr { name, opts, trailing_comma }
     }
@@ -514,7 +561,17 @@ impl<'a, 'b> Gen<'a, 'b> {
     }
 
     pub fn ty(&mut self, depth: u32) -> Ty {
-        let w: &[u32] = if depth == 0 { &[10, 0, 0, 0, 0, 3] } else { &[10, 5, 2, 1, 2, 4] };
+        let w: &[u32] = if depth == 0 {
+            if self.cfg.rich {
+                &[10, 0, 0, 0, 0, 7]
+            } else {
+                &[10, 0, 0, 0, 0, 3]
+            }
+        } else if self.cfg.rich {
+            &[8, 6, 3, 2, 3, 10]
+        } else {
+            &[10, 5, 2, 1, 2, 4]
+        };
         match self.t.weighted(w) {
             0 => Ty::Kw(*self.t.pick(PRIMS)),
             1 => {
@@ -548,7 +605,7 @@ impl<'a, 'b> Gen<'a, 'b> {
     }
 
     fn top_ty(&mut self) -> Ty {
-        let d = 1 + self.t.below(3) as u32;
+        let d = 1 + self.t.below(if self.cfg.rich { 4 } else { 3 }) as u32;
         self.ty(d)
     }
 
@@ -565,6 +622,12 @@ impl<'a, 'b> Gen<'a, 'b> {
     }
 
     fn member_name(&mut self, pool: &[&str], odd: &[&str], used: &mut Vec<String>) -> String {
+        if let Some(k) = self.keyword_name() {
+            if !used.contains(&k) {
+                used.push(k.clone());
+                return k;
+            }
+        }
         if self.slip() {
             let n = (*self.t.pick(odd)).to_string();
             // `required` followed by white space is the keyword: never a field name
@@ -800,6 +863,14 @@ impl<'a, 'b> Gen<'a, 'b> {
                 if self.t.chance(80) {
                     let n = 1 + self.t.below(3);
                     (0..n).map(|_| text::doc_line(self.t)).collect()
+                } else {
+                    vec![]
+                }
+            }
+            DocMode::Safe => {
+                if self.t.chance(80) {
+                    let n = 1 + self.t.below(3);
+                    (0..n).map(|_| text::safe_doc_line(self.t)).collect()
                 } else {
                     vec![]
                 }
